@@ -52,7 +52,7 @@ let () =
       let i = String.index line ';' in
       let header = String.sub line 0 i in
       let toks = split_nonempty ' ' (String.sub line (i + 1) (String.length line - i - 1)) in
-      let alpha = ref [] and plen = ref 0 and extra = ref [] in
+      let alpha = ref [] and plen = ref 0 and extra = ref [] and oracle_only = ref false in
       List.iter (fun kv ->
           match String.index_opt kv '=' with
           | None -> ()
@@ -60,8 +60,11 @@ let () =
             let k = String.sub kv 0 j and v = String.sub kv (j + 1) (String.length kv - j - 1) in
             if k = "a" then alpha := word_of_hex v
             else if k = "n" then plen := int_of_string v
+            else if k = "o" then oracle_only := (v = "1")
             else if k = "p" then extra := List.map word_of_hex (split_nonempty '.' v))
         (String.split_on_char ',' header);
+      (* o=1: a big automaton judged by the harness's own oracles only (minimal_size is quadratic) *)
+      if !oracle_only then print_endline "oracle-only" else
       let words = List.map word_of_hex toks in
       let maxlen = List.fold_left (fun m w -> max m (List.length w)) 0 words in
       match add_seq initialise words with
@@ -89,7 +92,9 @@ let () =
            let probes = all_probes !alpha !plen @ !extra in
            let lks = String.concat "," (List.map lk probes) in
            (* dawg.New on the whole argument list: an error exactly when the model's new_dawg refuses it *)
-           let new_s = match new_dawg words with
+           (* when every Add was accepted, new_dawg words = finish b (C12_finish_after_add_sequence,
+              kept = the whole list), which is Some here: not recomputed *)
+           let new_s = if List.for_all (fun f -> f) flags then "ok" else match new_dawg words with
              | Ok (Some _) -> "ok" | Ok None -> "err" | Panic -> "panic" | NoFuel -> "nofuel" in
            Printf.printf "acc=%s new=%s words=%s ranks=%s nw=%s nodes=%s lk=%s ## reg=%s lastid=%d dump=%s\n"
              (String.concat "" (List.map (fun f -> if f then "1" else "0") flags)) new_s
